@@ -56,8 +56,13 @@ def staging_e2e(rp, seed, tier):
     return staging_sim.run_all(rp, tier)
 
 
+def task_scripts(rp, seed, tier):
+    from harness import script_sim
+    return script_sim.run_all(rp, tier)
+
+
 CHECKS = {'sched-histories': sched_histories, 'bf-histories': bf_histories, 'lm-placements': lm_placements,
-          'staging-e2e': staging_e2e}
+          'staging-e2e': staging_e2e, 'task-scripts': task_scripts}
 
 
 def main():
